@@ -117,7 +117,10 @@ def abs_model(m):
 def abs_file(path, networks):
     if not os.path.exists(path):
         return None
-    sd = torch.load(path)
+    try:
+        sd = torch.load(path)
+    except Exception as e:  # noqa: BLE001  (e.g. a file object the harness opened and the library then refused to write)
+        return ("unreadable", type(e).__name__, os.path.getsize(path))
     nets = tuple((net, tuple((n, H(p)) for n, p in sd[net].items())) for net in networks if net in sd)
     ud = tuple(sorted((k, H(v)) for k, v in sd["unitary_dict"].items())) if "unitary_dict" in sd else None
     md = canon({k: v for k, v in sd.items() if k not in networks and k != "unitary_dict"})
